@@ -91,9 +91,18 @@ func tableStr(t [][]string) string {
 
 var c09Tok = map[int]*csv.CsvTokenizer{}
 
+// c09Order picks the history of setter calls that configures the tokenizer; the default configuration
+// (one comma, one double quote) is also used as constructed, without any setter call
+func c09Order(ci int, k c09Cfg, text string) int {
+	if len(k.seps) == 1 && k.seps[0] == ',' && len(k.quotes) == 1 && k.quotes[0] == '"' {
+		return (ci + len(text)) % 5
+	}
+	return (ci + len(text)) % 4
+}
+
 func c09Tokenizer(ci int, order int, k c09Cfg, fresh bool) *csv.CsvTokenizer {
 	if !fresh {
-		if t, ok := c09Tok[ci*4+order]; ok {
+		if t, ok := c09Tok[ci*5+order]; ok {
 			return t
 		}
 	}
@@ -110,6 +119,8 @@ func c09Tokenizer(ci int, order int, k c09Cfg, fresh bool) *csv.CsvTokenizer {
 		t.SetQuoteSymbols(k.quotes)
 		t.SetFieldSeparators(k.seps)
 		t.SetFieldSeparators(k.seps) // the same set applied again
+	case 4:
+		// as constructed
 	case 3:
 		t.SetFieldSeparators(k.seps)
 		t.SetQuoteSymbols(k.quotes)
@@ -118,7 +129,7 @@ func c09Tokenizer(ci int, order int, k c09Cfg, fresh bool) *csv.CsvTokenizer {
 	}
 	t.SetDecodeStrings(true)
 	if !fresh {
-		c09Tok[ci*4+order] = t
+		c09Tok[ci*5+order] = t
 	}
 	return t
 }
@@ -130,11 +141,11 @@ func c09Run(c *fw.Ctx, table [][]string, ci int) {
 		var t *csv.CsvTokenizer
 		var toks []*tokenizers.Token
 		pv := fw.Try(func() {
-			t = c09Tokenizer(ci, (ci+len(text))%4, k, fresh)
+			t = c09Tokenizer(ci, c09Order(ci, k, text), k, fresh)
 			toks = t.TokenizeBuffer(text)
 		})
 		if pv != nil {
-			delete(c09Tok, ci*4+(ci+len(text))%4)
+			delete(c09Tok, ci*5+c09Order(ci, k, text))
 			return "panic: " + panicShort(pv), nil, 0
 		}
 		rows := [][]string{{""}}
